@@ -229,6 +229,9 @@ func (e *Engine) ifaceSpec(recv types.Type, method string) *FuncSpec {
 	case *types.TypeParam:
 		return e.ifaceSpec(n.Constraint(), method)
 	}
+	if it, ok := recv.Underlying().(*types.Interface); ok && name == "" && it.NumMethods() > 0 {
+		name = "interface"
+	}
 	if name == "" {
 		return nil
 	}
@@ -244,6 +247,11 @@ func (e *Engine) ifaceSpec(recv types.Type, method string) *FuncSpec {
 		}
 	}
 	for _, p := range paths {
+		if pp == "" {
+			if s := e.specs[p].Ifaces[name+"."+method]; s != nil {
+				return s
+			}
+		}
 		if s := e.specs[p].Ifaces[pp+"."+name+"."+method]; s != nil {
 			return s
 		}
